@@ -62,8 +62,6 @@ func diffItems(got, want []item) string {
 	return ""
 }
 
-var denLog = map[int]byte{1: 0, 2: 1, 4: 2, 8: 3, 16: 4, 32: 5}
-
 func buildSong(c Case) *sequencer.Song {
 	s := sequencer.New()
 	s.Ticks = smf.MetricTicks(c.Res)
@@ -97,7 +95,11 @@ func collect(f smf.SMF) (tracks [][]item, eots []int64, bad string) {
 					return nil, nil, fmt.Sprintf("track %d: end-of-track in the middle", ti)
 				}
 				eot = abs
-			case m.Is(smf.MetaTimeSigMsg) || !m.IsMeta():
+			case len(m) == 7 && m[0] == 0xFF && m[1] == 0x58 && m[2] == 0x04:
+				// a time signature counts by numerator/denominator; the metronome fields are not
+				// part of the statement
+				items = append(items, item{abs, fmt.Sprintf("time-signature %d/%d", m[3], 1<<m[4])})
+			case !m.IsMeta():
 				items = append(items, item{abs, string(m)})
 			}
 		}
@@ -138,7 +140,7 @@ func run(c Case) (res ev.Result) {
 		}
 		if [2]int{num, den} != curSig {
 			curSig = [2]int{num, den}
-			want = append(want, item{start, string([]byte{0xFF, 0x58, 0x04, byte(num), denLog[den], 8, 8})})
+			want = append(want, item{start, fmt.Sprintf("time-signature %d/%d", num, den)})
 		}
 		for _, e := range b.Events {
 			if e.Pos >= len32 {
